@@ -248,4 +248,9 @@ def run_cli(args: list[str], *, hooks_module: str | None = None) -> tuple[int, s
     except click.exceptions.ClickException as exc:
         code = exc.exit_code
         out.write(str(exc))
+    except Exception:  # noqa: BLE001 - the command crashed: what a user would see as a traceback
+        import traceback
+
+        code = -1
+        out.write("\nUNCAUGHT EXCEPTION LEFT THE CLI\n" + traceback.format_exc()[-1500:])
     return code, out.getvalue()
